@@ -35,6 +35,13 @@ type Session struct {
 	Dead bool
 	// Diverged is set when a plan refers to a temporary name that this run never created.
 	Diverged bool
+	// FailFS wrapper state: the plan "the K-th consultation of primitive Fn fails", the counters, the
+	// consultations of the current call, and a switch that silences the wrapper while the driver observes.
+	FailFn    string
+	FailK     int
+	failCount map[string]int
+	cons      []string
+	quiet     bool
 }
 
 // Cred is the acting user of the session (nil = administrator).
@@ -96,6 +103,8 @@ func ErrName(err error) string {
 	}
 
 	switch {
+	case err == ErrInjected:
+		return "EINJECTED"
 	case err == io.EOF:
 		return "EOF"
 	case err == avfs.ErrNegativeOffset || err.Error() == "negative offset":
@@ -327,7 +336,9 @@ func (s *Session) exec(c Call, res *Res) {
 		setErr(err)
 
 		if err == nil {
-			_ = f.Close()
+			if cerr := f.Close(); cerr != nil && s.Wrap != "" {
+				setErr(cerr)
+			}
 		}
 	case "open":
 		f, err := vfs.OpenFile(p, flagsOf(c.Flag), ModeOf(c.Perm))
@@ -342,7 +353,9 @@ func (s *Session) exec(c Call, res *Res) {
 		setErr(err)
 
 		if err == nil {
-			_ = f.Close()
+			if cerr := f.Close(); cerr != nil && s.Wrap != "" {
+				setErr(cerr)
+			}
 		}
 	case "writefile":
 		setErr(vfs.WriteFile(p, bytesOf(c.Data), ModeOf(c.Perm)))
@@ -584,3 +597,6 @@ func (s *Session) CloseAll() {
 }
 
 var errDeadlock = errors.New("verif: self-deadlock detected")
+
+// ErrInjected is the error a FailFS plan injects.
+var ErrInjected = errors.New("verif: injected failure")
